@@ -142,6 +142,7 @@ impl Peer {
     pub fn handle_have(
         &mut self,
         piece_index: usize,
+        chosen_index: Option<usize>,
         pieces_status: &mut Vec<Status>,
         metainfo: &Metainfo,
     ) -> HaveCmd {
@@ -149,10 +150,15 @@ impl Peer {
 
         if pieces_status[piece_index] == Status::Missing && !self.am_interested {
             if !self.choked && self.piece_index.is_none() {
-                pieces_status[piece_index] = Status::Reserved(1);
-                self.piece_index = Some(piece_index);
+                let chosen_index = chosen_index.unwrap_or(piece_index);
+                pieces_status[chosen_index] = match pieces_status[chosen_index] {
+                    Status::Reserved(peers_count) => Status::Reserved(peers_count + 1),
+                    Status::Missing => Status::Reserved(1),
+                    Status::Have => Status::Have,
+                };
+                self.piece_index = Some(chosen_index);
                 self.am_interested = true;
-                HaveCmd::SendInterestedAndRequest(req_data(metainfo, piece_index))
+                HaveCmd::SendInterestedAndRequest(req_data(metainfo, chosen_index))
             } else {
                 self.am_interested = true;
                 HaveCmd::SendInterested
